@@ -496,16 +496,27 @@ def enum_arms(fn, enum_suffix, which=0):
         edges[rest[0]] = t["otherwise"]
     sy = Sym(fn)
     out = {}
+    # the result slot: _0 and the locals whose value is only ever copied on into it (the return slot of a spliced helper)
+    rs = {0}
+    for _ in range(4):
+        for i, k, s in b.stmts():
+            if s["k"] == "assign" and s["p"]["l"] in rs and not s["p"].get("pr") and s["rv"]["k"] == "use":
+                q = s["rv"]["a"].get("move") or s["rv"]["a"].get("copy")
+                if q is not None and not q.get("pr") and q["l"] > b.argc:
+                    rs.add(q["l"])
     for v, tgt in edges.items():
         blocks = {x for x in b.reachable(tgt) if b.edge_dominates((sw, tgt), x)}
         calls = [c for c in fn.body.calls() if c.bb in blocks]
         rets = []
         for i in sorted(blocks):
             for s in b.blocks[i]["s"]:
-                if s["k"] == "assign" and s["p"]["l"] == 0 and not s["p"].get("pr"):
+                if s["k"] == "assign" and s["p"]["l"] in rs and not s["p"].get("pr"):
+                    q = (s["rv"].get("a") or {}).get("move") or (s["rv"].get("a") or {}).get("copy") if s["rv"]["k"] == "use" else None
+                    if q is not None and not q.get("pr") and q["l"] in rs:
+                        continue  # the hand-over itself
                     rets.append(strip_sym(sy.rvalue(s["rv"], 0, frozenset())))
             tt = b.term(i)
-            if tt["k"] == "call" and tt["dest"]["l"] == 0 and not tt["dest"].get("pr"):
+            if tt["k"] == "call" and tt["dest"]["l"] in rs and not tt["dest"].get("pr"):
                 rets.append(("call", tt.get("resolved") or tt.get("callee") or "?", tuple(sy.operand(a) for a in tt["args"]), tt.get("callee")))
         out[v] = {"blocks": blocks, "calls": calls, "ret": rets[0] if len(rets) == 1 else (("phi", tuple(rets)) if rets else None), "target": tgt}
     out["__switch__"] = sw
@@ -613,7 +624,7 @@ def cas_flow(fn, cas_call):
         s = strip_sym(s)
         if not (isinstance(s, tuple) and s and s[0] == "call"):
             return False
-        return any(isinstance(n, str) and path_is(n, "compare_exchange") for n in (s[1], s[3]))
+        return any(isinstance(n, str) and (path_is(n, "compare_exchange") or path_is(n, "compare_exchange_weak")) for n in (s[1], s[3]))
 
     def csw(subj, variant):
         if is_cas(subj):
@@ -642,6 +653,203 @@ def cas_flow(fn, cas_call):
     return facts.PredFlow(fn, csw, cbool)
 
 
+
+
+def _single_def_of(b, l):
+    ds = b.defs().get(l, [])
+    return ds[0] if len(ds) == 1 else None
+
+
+def value_def(b, op, depth=0):
+    """The defining statement/terminator of an operand's value, through single-definition copies and casts:
+    ('const', op) | ('var', local) for a multiply-assigned/parameter local | ('call', bb, term) | ('rv', bb, rvalue)."""
+    if "const" in op:
+        return ("const", op)
+    pl = op.get("copy") or op.get("move")
+    if pl is None:
+        return ("unknown", op)
+    if [e for e in (pl.get("pr") or [])]:
+        return ("place", pl)
+    l = pl["l"]
+    if 1 <= l <= b.argc:
+        return ("var", l)
+    d = _single_def_of(b, l)
+    if d is None:
+        return ("var", l)
+    if d[0] == "call":
+        return ("call", d[1], d[3])
+    rv = d[3]["rv"]
+    if rv["k"] == "use" and depth < 8:
+        return value_def(b, rv["a"], depth + 1)
+    return ("rv", d[1], rv)
+
+
+def cas_loop(fn, binop, value_param=1):
+    """Decides an open-coded compare-exchange retry loop `cur = self.load(); loop { new = to_bits(from_bits(cur) OP value);
+    match self.compare_exchange[_weak](cur, new, ..) { Ok => break, Err(x) => cur = x } }` on the receiver `self`:
+    (ok, why).  What is required is what makes no update lost: the new value is recomputed in every iteration from the
+    very variable that is the expected value of the same attempt, that variable only ever holds what was atomically read
+    from self (a load, or the failed attempt's payload), and the function returns only after an attempt succeeded."""
+    b = fn.body
+    ops = atomic_ops(fn)
+    cas = [o for o in ops if o[1] in ("compare_exchange", "compare_exchange_weak") and o[0].fn is fn]
+    loads = [o for o in ops if o[1] == "load" and o[0].fn is fn]
+    if len(cas) != 1 or len(cas) + len(loads) != len(ops):
+        return False, f"atomic ops {[o[1] for o in ops]}"
+    c = cas[0][0]
+    if not in_cycle(b, c.bb):
+        return False, "the compare-exchange is not retried"
+    if (sym_arg(strip_sym(cas[0][2])) or (None,))[0] != 0 or any((sym_arg(strip_sym(o[2])) or (None,))[0] != 0 for o in loads):
+        return False, "atomic operations on something other than self"
+    exp = value_def(b, c.args[1])
+    if exp[0] != "var":
+        return False, "the expected value is not a variable carried round the loop"
+    V = exp[1]
+    # every definition of V is an atomic read of self
+    for d in b.defs().get(V, []):
+        if d[0] == "call":
+            if not path_is(d[3].get("resolved") or d[3].get("callee") or "", "load"):
+                return False, f"the expected value is assigned from {d[3].get('callee')}"
+        else:
+            rv = d[3]["rv"]
+            src = rv.get("a", {}).get("copy") or rv.get("a", {}).get("move") if rv["k"] == "use" else None
+            ok_src = src is not None and src["l"] == c.t["dest"]["l"] and any(isinstance(e, dict) and e.get("variant") == "Err" or e == "Err" or (isinstance(e, dict) and e.get("downcast") == "Err") for e in (src.get("pr") or []))
+            if not ok_src:
+                # through a binding local: `Err(observed) => cur = observed`
+                dd = value_def(b, rv["a"]) if rv["k"] == "use" else None
+                ok_src = bool(dd) and dd[0] == "place" and dd[1]["l"] == c.t["dest"]["l"] and "Err" in repr(dd[1].get("pr"))
+            if not ok_src:
+                return False, "the expected value is assigned something that was not atomically read from self"
+    # new = to_bits(OP(from_bits(V), value)), computed inside the loop
+    nd = value_def(b, c.args[2])
+    if not (nd[0] == "call" and path_is(nd[2].get("resolved") or "", "to_bits") and in_cycle(b, nd[1])):
+        return False, "the new value is not to_bits(..) computed inside the retry loop (a value computed once before the loop goes stale)"
+    od = value_def(b, nd[2]["args"][0])
+    if not (od[0] == "rv" and od[2]["k"] == "bin" and od[2]["op"] in (binop, binop + "Unchecked") and in_cycle(b, od[1])):
+        return False, f"the new value is not from_bits(current) {binop} value computed inside the retry loop"
+    fd = value_def(b, od[2]["a"])
+    vd = value_def(b, od[2]["b"])
+    if not (fd[0] == "call" and path_is(fd[2].get("resolved") or "", "from_bits") and in_cycle(b, fd[1]) and value_def(b, fd[2]["args"][0]) == ("var", V)):
+        return False, "the new value is not computed from the expected value of the same attempt"
+    if vd != ("var", value_param + 1):
+        return False, "the delta is not the value parameter"
+    fl = cas_flow(fn, c)
+    rets = [r for r in b.return_blocks() if not b.blocks[r].get("cleanup")]
+    if not rets or any(fl.at(r) != "P" for r in rets):
+        return False, "the function can return without a successful compare-exchange"
+    return True, f"load; loop {{ compare_exchange(cur, to_bits(from_bits(cur) {binop} value)) }} until Ok"
+
+
+INC_CALLS = ("checked_add", "wrapping_add", "saturating_add", "unwrap", "expect", "unwrap_or", "add", "add_assign", "from", "into")
+
+
+def is_increment(s):
+    """A symbolic value of the shape old + 1 (possibly re-wrapped / overflow-checked): decided on the structure of the
+    value from the top, so whatever `old` is made of does not matter."""
+    def one(y):
+        y = strip_sym(y)
+        return isinstance(y, tuple) and y[:2] == ("const", "int") and y[2] == 1
+
+    s = strip_sym(s)
+    for _ in range(8):
+        if not isinstance(s, tuple) or not s:
+            return False
+        if s[0] == "field":
+            s = strip_sym(s[1])
+        elif s[0] == "agg" and len(s[3]) == 1:
+            s = strip_sym(s[3][0])
+        elif s[0] == "cast":
+            s = strip_sym(s[1])
+        elif s[0] == "call" and isinstance(s[1], str) and strip_generics(s[1]).split("::")[-1] in ("unwrap", "expect", "unwrap_or", "unwrap_or_default", "from", "into") and s[2]:
+            s = strip_sym(s[2][0])
+        else:
+            break
+    if s[0] == "bin" and s[1] in ("Add", "AddWithOverflow", "AddUnchecked"):
+        return one(s[2]) or one(s[3])
+    if s[0] == "call" and isinstance(s[1], str) and strip_generics(s[1]).split("::")[-1] in ("checked_add", "wrapping_add", "saturating_add", "add") and len(s[2]) == 2:
+        return one(s[2][1]) or one(s[2][0])
+    return False
+
+
+def pointers_to(b, L):
+    """Locals that hold `&mut L` (or a reborrow / move of such a pointer)."""
+    ptrs = set()
+    for i, k, st in b.stmts():
+        if st["k"] == "assign" and st["rv"]["k"] in ("ref", "rawptr") and st["rv"].get("mut") and st["rv"]["p"]["l"] == L and "*" not in (st["rv"]["p"].get("pr") or []):
+            ptrs.add(st["p"]["l"])
+    for _ in range(3):
+        for i, k, st in b.stmts():
+            if st["k"] != "assign":
+                continue
+            if st["rv"]["k"] in ("ref", "rawptr") and st["rv"].get("mut") and st["rv"]["p"]["l"] in ptrs and "*" in (st["rv"]["p"].get("pr") or []):
+                ptrs.add(st["p"]["l"])
+            if st["rv"]["k"] == "use" and (st["rv"]["a"].get("move") or {}).get("l") in ptrs and not st["rv"]["a"]["move"].get("pr"):
+                ptrs.add(st["p"]["l"])
+    return ptrs
+
+
+def field_increments(fn, field):
+    """Blocks of fn in which the counter that ends up in field `field` of fn's returned struct is advanced by one:
+    [(bb, line)], or None when the returned value's field cannot be traced to one counter.  The counter is either a field of
+    a local struct that is returned (`result.field += 1`, also through a spliced `&mut self` helper), or a local integer
+    that the returned struct literal is built from (`Struct { field: n, .. }`)."""
+    b = fn.body
+    sy = Sym(fn)
+    ret_defs = [d for d in b.defs().get(0, []) if d[0] == "assign"]
+    if len(ret_defs) != 1:
+        return None
+    rv = ret_defs[0][3]["rv"]
+    target = None  # (local, field-or-None)
+    if rv["k"] == "use":
+        vd = rv["a"].get("move") or rv["a"].get("copy")
+        if vd is None or vd.get("pr"):
+            return None
+        l = vd["l"]
+        for _ in range(6):
+            d = _single_def_of(b, l)
+            if d is not None and d[0] == "assign" and d[3]["rv"]["k"] == "use" and not (d[3]["rv"]["a"].get("move") or d[3]["rv"]["a"].get("copy") or {"pr": 1}).get("pr"):
+                l = (d[3]["rv"]["a"].get("move") or d[3]["rv"]["a"].get("copy"))["l"]
+            else:
+                break
+        d = _single_def_of(b, l)
+        if d is not None and d[0] == "assign" and d[3]["rv"]["k"] == "agg" and field in (d[3]["rv"].get("fields") or []) and not [1 for i_, k_, st in b.stmts() if st["k"] == "assign" and st["p"]["l"] == l and st["p"].get("pr")] and not pointers_to(b, l):
+            rv = d[3]["rv"]  # a struct literal bound to a local and returned unchanged
+        else:
+            target = (l, field)
+    if target is None:
+        if rv["k"] != "agg" or field not in (rv.get("fields") or []):
+            return None
+        op = rv["ops"][rv["fields"].index(field)]
+        vd = value_def(b, op)
+        if vd[0] != "var":
+            return None
+        target = (vd[1], None)
+    L, fld = target
+    ptrs = pointers_to(b, L)
+    out = []
+    for i, k, st in b.stmts():
+        if st["k"] != "assign":
+            continue
+        pl = st["p"]
+        pr = pl.get("pr") or []
+        names = [e.get("f") for e in pr if isinstance(e, dict) and "f" in e]
+        hit = False
+        if pl["l"] == L and "*" not in pr:
+            hit = (fld is None and not pr) or (fld is not None and names == [fld])
+        elif pl["l"] in ptrs and "*" in pr:
+            hit = (fld is None and not names) or (fld is not None and names == [fld])
+        if not hit or not in_any_code(b, i):
+            continue
+        v = sy.rvalue(st["rv"], 0, frozenset())
+        if is_increment(v):
+            out.append((i, st.get("ln", 0)))
+        elif not (st["rv"]["k"] == "use" and "const" in st["rv"]["a"]) and not st["rv"]["k"] == "agg":
+            out.append((i, -st.get("ln", 0)))  # a write that is not an increment (negative line = flagged by callers)
+    return out
+
+
+def in_any_code(b, i):
+    return i in b.live_blocks() if hasattr(b, "live_blocks") else True
 
 
 def result_unused(cs):
@@ -769,6 +977,10 @@ def import_rules(ctx, prop, rule_ids, as_rule, text, floor=1):
     from report import Check
 
     chk = ctx.check
+    if getattr(ctx, "no_imports", False):
+        # this module is itself being re-decided for an importing property: imports do not nest (the importer
+        # names the leaf rules it rests on directly)
+        return
     if ctx.config not in ("default", "test-profile"):
         # partial builds (single crate, feature subsets) do not contain the other property's crates
         return
@@ -777,6 +989,7 @@ def import_rules(ctx, prop, rule_ids, as_rule, text, floor=1):
     sub = ctx.__class__(prop, ctx.tier, ctx.dir, ctx.config)
     subchk = Check(prop, ctx.tier)
     sub.check = subchk
+    sub.no_imports = True
     try:
         getattr(mod, "run_config", mod.run)(sub) if ctx.config != "default" else mod.run(sub)
     except Exception as e:  # fail closed
